@@ -725,6 +725,27 @@ func c07ReloadDiff(w *c07World, live, re c07Snapshot) (class, what string) {
 		}
 		return class, fmt.Sprintf("a restart would change the repo metadata:\n--- live\n%s\n--- reloaded\n%s\n(first difference: %q vs %q)", strings.Join(lc, "\n"), strings.Join(rc, "\n"), a, b)
 	}
+	for _, lr := range live.Dump.Repos {
+		for _, rr := range re.Dump.Repos {
+			if lr.Root != rr.Root {
+				continue
+			}
+			for name, lc := range lr.InstanceConfig {
+				if rcfg, ok := rr.InstanceConfig[name]; ok && c07CanonConfig(rcfg) != c07CanonConfig(lc) {
+					return "instance-settings", fmt.Sprintf("a restart would change the settings of instance %q: live %s, reloaded %s", name, lc, rcfg)
+				}
+			}
+		}
+	}
+	stripConfig := func(d *datastore.VerifState) { // compared above, modulo empty members
+		repos := append([]datastore.VerifRepo{}, d.Repos...)
+		for i := range repos {
+			repos[i].InstanceConfig = nil
+		}
+		d.Repos = repos
+	}
+	stripConfig(&live.Dump)
+	stripConfig(&re.Dump)
 	live.Dump.OtherBranchEntries, re.Dump.OtherBranchEntries = 0, 0 // entries of other worlds' repos (outside the dump's prefixes)
 	if lg, rg := live.global(), re.global(); lg != rg {
 		return "maps", "a restart would change the identifier maps: " + c07GlobalDiff(live, re) + c07GlobalDiff(re, live)
@@ -735,6 +756,45 @@ func c07ReloadDiff(w *c07World, live, re c07Snapshot) (class, what string) {
 			l.NextRepoID, l.NextVersionID, l.NextInstance, r.NextRepoID, r.NextVersionID, r.NextInstance)
 	}
 	return "", ""
+}
+
+// c07CanonConfig drops empty members from an instance's JSON: null, {} and [] are the same observable (a reloaded
+// instance reports an empty tag map where a freshly created one reports null).
+func c07CanonConfig(js string) string {
+	var v interface{}
+	if json.Unmarshal([]byte(js), &v) != nil {
+		return js
+	}
+	var walk func(v interface{}) interface{}
+	walk = func(v interface{}) interface{} {
+		switch t := v.(type) {
+		case map[string]interface{}:
+			m := map[string]interface{}{}
+			for k, x := range t {
+				switch e := x.(type) {
+				case nil:
+					continue
+				case map[string]interface{}:
+					if len(e) == 0 {
+						continue
+					}
+				case []interface{}:
+					if len(e) == 0 {
+						continue
+					}
+				}
+				m[k] = walk(x)
+			}
+			return m
+		case []interface{}:
+			for i := range t {
+				t[i] = walk(t[i])
+			}
+		}
+		return v
+	}
+	b, _ := json.Marshal(walk(v))
+	return string(b)
 }
 
 func c07Outcome(code int) string {
